@@ -1,7 +1,7 @@
 /-
   The inductive invariant of the router world and its consequences for reachable states.
 -/
-import MxModel.Lemmas.RouterSpec
+import MxModel.Lemmas.RouterUser
 
 namespace Mx.Router
 
@@ -144,6 +144,14 @@ theorem step_frame {s s' : St} {op : Op} {o : Out} (h : step s op = some (s', o)
   | removeLiq u a lp m1 m2 => exact removeLiq_frame h
   | swapIn u a ti x to m => exact swapIn_frame h
   | swapOut u a ti mx to out => exact swapOut_frame h
+  | configEnable c common locked mv mp => exact configEnable_frame h
+  | addCommon c toks => exact addCommon_frame h
+  | removeCommon c toks => exact removeCommon_frame h
+  | enableByUser c a k amount => exact enableByUser_frame h
+  | enablePlain c a tok amount => cases h
+  | lock u coll orig amount unlock => exact lockTokens_frame h
+  | unlock u k amount => exact unlockTokens_frame h
+  | advance e => exact advance_frame h
 
 theorem step_inv {s s' : St} {op : Op} {o : Out} (hi : Inv s) (h : step s op = some (s', o)) :
     Inv s' := by
@@ -162,6 +170,14 @@ theorem step_inv {s s' : St} {op : Op} {o : Out} (hi : Inv s) (h : step s op = s
   | removeLiq u a lp m1 m2 => exact (step_frame h (by intros; simp) (by intros; simp)).inv hi
   | swapIn u a ti x to m => exact (step_frame h (by intros; simp) (by intros; simp)).inv hi
   | swapOut u a ti mx to out => exact (step_frame h (by intros; simp) (by intros; simp)).inv hi
+  | configEnable c common locked mv mp => exact (step_frame h (by intros; simp) (by intros; simp)).inv hi
+  | addCommon c toks => exact (step_frame h (by intros; simp) (by intros; simp)).inv hi
+  | removeCommon c toks => exact (step_frame h (by intros; simp) (by intros; simp)).inv hi
+  | enableByUser c a k amount => exact (step_frame h (by intros; simp) (by intros; simp)).inv hi
+  | enablePlain c a tok amount => exact (step_frame h (by intros; simp) (by intros; simp)).inv hi
+  | lock u coll orig amount unlock => exact (step_frame h (by intros; simp) (by intros; simp)).inv hi
+  | unlock u k amount => exact (step_frame h (by intros; simp) (by intros; simp)).inv hi
+  | advance e => exact (step_frame h (by intros; simp) (by intros; simp)).inv hi
 
 theorem step_owner {s s' : St} {op : Op} {o : Out} (h : step s op = some (s', o)) :
     s'.owner = s.owner ∧ s'.self = s.self := by
@@ -184,6 +200,14 @@ theorem step_owner {s s' : St} {op : Op} {o : Out} (h : step s op = some (s', o)
   | removeLiq u a lp m1 m2 => exact (fun f : Frame s s' => ⟨f.owner, f.self⟩) (step_frame h (by intros; simp) (by intros; simp))
   | swapIn u a ti x to m => exact (fun f : Frame s s' => ⟨f.owner, f.self⟩) (step_frame h (by intros; simp) (by intros; simp))
   | swapOut u a ti mx to out => exact (fun f : Frame s s' => ⟨f.owner, f.self⟩) (step_frame h (by intros; simp) (by intros; simp))
+  | configEnable c common locked mv mp => exact (fun f : Frame s s' => ⟨f.owner, f.self⟩) (step_frame h (by intros; simp) (by intros; simp))
+  | addCommon c toks => exact (fun f : Frame s s' => ⟨f.owner, f.self⟩) (step_frame h (by intros; simp) (by intros; simp))
+  | removeCommon c toks => exact (fun f : Frame s s' => ⟨f.owner, f.self⟩) (step_frame h (by intros; simp) (by intros; simp))
+  | enableByUser c a k amount => exact (fun f : Frame s s' => ⟨f.owner, f.self⟩) (step_frame h (by intros; simp) (by intros; simp))
+  | enablePlain c a tok amount => exact (fun f : Frame s s' => ⟨f.owner, f.self⟩) (step_frame h (by intros; simp) (by intros; simp))
+  | lock u coll orig amount unlock => exact (fun f : Frame s s' => ⟨f.owner, f.self⟩) (step_frame h (by intros; simp) (by intros; simp))
+  | unlock u k amount => exact (fun f : Frame s s' => ⟨f.owner, f.self⟩) (step_frame h (by intros; simp) (by intros; simp))
+  | advance e => exact (fun f : Frame s s' => ⟨f.owner, f.self⟩) (step_frame h (by intros; simp) (by intros; simp))
 
 theorem run_inv (ops : List Op) {s : St} (hi : Inv s) : Inv (run s ops) := by
   induction ops generalizing s with
